@@ -286,8 +286,8 @@ Definition c09_run (v : vl) : vl :=
                   VB (wf_seq al an true false seq);
                   VB (wf_seq al an false false seq);
                   VB (forallb (sem_ok ok) seq);
-                  VB (forallb (sem_ok_mod_class ok) seq);
-                  VB (existsb in_known_class seq)];
+                  VB (forallb (sem_ok ok) seq);   (* formerly sem_ok modulo the MDC finding class (fixed c13258d) *)
+                  VN 0];                           (* formerly: in the MDC finding class *)
               enc_result (meaning_seq (time_str_of (d_times d)) (d_env d) seq)]
         end
       end
